@@ -772,6 +772,21 @@ def _val_add(ctx, NR, b, fv):
 
 # ----------------------------------------------------------------------------- EdgeLabel (CW-NB)
 
+def rule_child_id(ctx, R, NR):
+    """NFA-CHILD: child_id(s, c) is the edge-map lookup of label c at state s"""
+    if not NR.ok:
+        return
+    lib = ctx.lib
+    b = NR.child_id
+    if b is None:
+        ctx.missing("NFA-CHILD", NR.N + "::child_id")
+        return
+    fv = FnView(lib, b)
+    t = pnorm(fv.resolve(fv.root.ret()))
+    ok = m(C("alloc::collections::BTreeMap::get", F(nfa_state(Par(2)), "edges", NR.NS), Par(3)), t)
+    ctx.check(ok, "NFA-CHILD", b, "edge-lookup", b.span, "child_id(state, c) must be states[state].edges.get(&c); returns %s" % show(t), show(t))
+
+
 def rule_num_bytes(ctx, R, NR):
     lib = ctx.lib
     impls = [b for b in lib.bodies.values() if b.j.get("impl_trait") == "nfa_builder::EdgeLabel" and b.name == "num_bytes"]
